@@ -385,77 +385,35 @@ func hasAssertFalse(c *Ctx, body []ast.Stmt) bool {
 
 func ruleSibling9(c *Ctx) {
 	c.R.Rule("SIBLING-9", 4, "types.Env and val.Env keep their function tables in lock-step: Expr.RegisterFun registers every value in both tables in one loop; RegisterFun / GetMonoFun / GetPolyFuns of the two environments are equal after renaming FunTy<->FunVal (same key function, mono = overwrite, poly = append) — CallExpr.Index means the same at check time and at run time")
-	norm := func(n ast.Node) string {
-		var list interface{} = n
-		if fd, ok := n.(*ast.FuncDecl); ok {
-			var keep []ast.Stmt
-			for _, s := range fd.Body.List {
-				if es, ok := s.(*ast.ExprStmt); ok {
-					if ce, ok := es.X.(*ast.CallExpr); ok && c.calleeName(ce) == "util.Assert" {
-						continue
-					}
-				}
-				keep = append(keep, s)
-			}
-			list = keep
-		}
-		var sub func(x ast.Node) (string, bool)
-		sub = func(x ast.Node) (string, bool) {
-			switch e := x.(type) {
-			case *ast.Ident:
-				switch e.Name {
-				case "FunVal":
-					return "FunTy", true
-				case "panic":
-				}
-			case *ast.SelectorExpr:
-				if id, ok := e.X.(*ast.Ident); ok && id.Name == "types" {
-					return e.Sel.Name, true
-				}
-				if e.Sel.Name == "Type" {
-					if o := c.objOf(e.X); o != nil {
-						if _, isVar := o.(*types.Var); isVar && typeStr(o.Type()) == "*val.Val" {
-							if fd, ok := n.(*ast.FuncDecl); ok {
-								if r, ok := c.localNames(fd, fd)[o]; ok {
-									return r, true
-								}
-							}
-							return sxWith(e.X, sub), true
-						}
-					}
-				}
-				if e.Sel.Name == "Fun" {
-					// f.Fun() on a *types.Type / *val.Val: same accessor
-				}
-			case *ast.ExprStmt:
-				if ce, ok := e.X.(*ast.CallExpr); ok && c.calleeName(ce) == "util.Assert" {
-					return "", true // assertions are not part of the table discipline
-				}
-			}
-			return "", false
-		}
-		var out string
-		if fd, ok := n.(*ast.FuncDecl); ok {
-			out = c.sxNWith(fd, list, sub) // locals, parameters and the receiver by role: renaming one copy is harmless
-		} else {
-			out = sxWith(list, sub)
-		}
-		out = strings.ReplaceAll(out, "[ ", "[")
-		out = strings.ReplaceAll(out, "  ", " ")
-		return out
-	}
 	for _, m := range []string{"RegisterFun", "GetMonoFun", "GetPolyFuns"} {
 		a, b := c.FuncDecl("types", "Env."+m), c.FuncDecl("val", "Env."+m)
 		if a == nil || b == nil {
 			c.R.Anchor("Env." + m)
 			continue
 		}
-		if os.Getenv("YAE_DEBUG") != "" {
-			fmt.Println("A:", norm(a))
-			fmt.Println("B:", norm(b))
+		// path summaries (decisions, effects, results) after renaming the value-level names to the type-level ones
+		sigOf := func(fd *ast.FuncDecl, valSide bool) (string, bool) {
+			sigs, ok := c.pathSigs(fd, fd.Body, false)
+			s := strings.Join(sigs, "\n")
+			if valSide {
+				r := strings.NewReplacer("val.FunVal", "types.FunTy", "p0:fun", "m:types.Type.Fun(p0)", "p0.Type", "p0", "val.Env.", "types.Env.")
+				s = r.Replace(s)
+			}
+			return s, ok
 		}
-		c.R.Check(norm(a) == norm(b), "types.Env."+m, "equals val.Env."+m+" modulo renaming", a.Pos(),
-			"identical after FunVal->FunTy, v.Type->v, dropping assertions", "the type-level and value-level function tables are maintained differently: overload indices can disagree between check time and run time")
+		sa, oka := sigOf(a, false)
+		sb, okb := sigOf(b, true)
+		// an assertion only one side makes (slotFree of a mono signature) is not part of the table discipline: dropped by pathSigs
+		if os.Getenv("YAE_DEBUG") != "" {
+			fmt.Println("A:", sa)
+			fmt.Println("B:", sb)
+		}
+		if !oka || !okb {
+			c.R.Unk("types.Env."+m, "equals val.Env."+m+" modulo renaming", a.Pos(), "one of the two functions is not loop-free: path summaries cannot be compared")
+			continue
+		}
+		c.R.Check(sa == sb, "types.Env."+m, "equals val.Env."+m+" modulo renaming", a.Pos(),
+			"same decisions, effects and results on every path after FunVal->FunTy, v.Type->v (assertions dropped)", "the type-level and value-level function tables are maintained differently: overload indices can disagree between check time and run time")
 	}
 	// facade loop
 	rf := c.FuncDecl("yae", "Expr.RegisterFun")
